@@ -167,7 +167,7 @@ Matrix44<T> constexpr nextFrame (
         else if (dot < -1.0)
             dot = -1.0;
 
-        r = acosf (dot);
+        r = std::acos (dot);
         a = ti.cross (tj);
     }
 
